@@ -903,8 +903,8 @@ def check_case(rn, case, nkill, nint, rng, replay_only=None, nfault=0):
         if code == 0:
             for s in srcs_ok:
                 d = pr.dst.get(s)
-                if d and not isinstance(deref(real, d), bytes) and s not in skipped:
-                    concrete.append("exit status 0 but destination %s is missing" % d)
+                if d and not isinstance(deref(real, d), bytes) and s not in skipped and d not in names:
+                    concrete.append("exit status 0 but destination %s is missing" % d)     # (a destination that is also a source may be removed by --rm)
         if so or (case.out.startswith("o:") and len(names) > 1 and code == 0):
             blob = r["stdout"] if so else real.get(case.out[2:])
             want = b"".join(pr.content[s] for s in srcs_ok if s not in skipped and s not in sfile)
@@ -932,8 +932,9 @@ def check_case(rn, case, nkill, nint, rng, replay_only=None, nfault=0):
         if case.mode == "D":
             for s in srcs_ok:
                 d = pr.dst.get(s)
-                if not d or d in names or [pr.dst.get(x) for x in names].count(d) > 1:
-                    continue            # (two sources into one name: the last one wins; judged by oracle_collision)
+                if not d or d in names or [pr.dst.get(x) for x in names].count(d) > 1 or any(pr.dst.get(x) == s for x in names):
+                    continue            # (two sources into one name: the last one wins; judged by oracle_collision;
+                                        #  a source that is another source's destination: judged by oracle_unprocessed_input)
                 got = real.get(d)
                 pre = case.files.get(d)
                 if pr.accept.get(s) and code == 0 and got != pr.decoded[s]:
